@@ -9,7 +9,8 @@ from . import common, c16_calls
 from .common import Corr, f2hex, hex2f, frac2s, flist, parse_list
 
 ID = "C16"
-LEAN_MODULES = ["TempestVerif.Props.C16", "TempestVerif.Props.C16Vec", "TempestVerif.Props.C16Py", "TempestVerif.Props.C16Acc"]
+LEAN_MODULES = ["TempestVerif.Props.C16", "TempestVerif.Props.C16Vec", "TempestVerif.Props.C16Py", "TempestVerif.Props.C16Acc",
+                "TempestVerif.Props.C16Source"]
 RULE = ("generated points (d=1..5, 1-D and 2-D arrays) x index lists for periodic/reflective (empty, None, all, duplicates in either list, "
         "reversed order, and - in ~12% of the cases - an index in BOTH lists, which the functions accept although SamplerConfig rejects it); "
         "regime Q: dyadic rationals whose float image is exact, compared exactly with the Rat model; "
@@ -44,6 +45,13 @@ ASSUMPTIONS = ["index lists contain valid non-negative indices, no index in both
                "the two functions are unchanged, the assumption is discharged by the validation since /repo b8d82fc (`isinstance(i, int) and not "
                "isinstance(i, bool) and 0 <= i < n_dim`; found by this audit, F-number assigned by the coordinator) and checked on every run by suite "
                "index-validation (bool entries generated for SamplerConfig only, never for the two functions)"]
+
+
+def translators():
+    """G15: `apply_boundary_conditions` / `check_bounds` compiled from /repo's current source into Gen/BoundarySrc.lean (two parts:
+    skeleton tables, compiled terms); Props/C16Source.lean proves that the executable model is that compiled source"""
+    from translate import g15_boundary
+    return list(g15_boundary.generate())
 
 
 def _impl(per, refl, u, dtype=float):
